@@ -3,7 +3,7 @@
    list is mapped back to index-rectangles of the model's grid and must pass the verified
    checker is_cover; equality with the model's own greedy cover is NOT required. *)
 From FrameModel Require Import Num.QcTac Geometry.Rect Cases.Cmp
-  Die.Boundaries Die.Cells Die.Cover Die.DieModel Die.DieInput Die.DieInputFacts.
+  Die.Boundaries Die.Cells Die.Cover Die.DieModel Die.DieInput Die.DieInputFacts Die.NetHistory Die.NetHistoryFacts.
 From Coq Require Import Ascii String.
 Open Scope Qc_scope.
 
@@ -186,3 +186,31 @@ Proof.
   - constructor.
   - apply andb_true_iff in H. destruct H as [H1 H2]. constructor; [exact H1 | apply IH; exact H2].
 Qed.
+
+(* ---- the attached Netlist object has a HISTORY (Die/NetHistory.v): [seen] is what the model says each construction
+   of the history is handed - the description and the fixed rectangles the modules have at that moment; None: the
+   model says an operation of the history is refused ---- *)
+Definition agree_nsteps (seen : option (list (die_input * list Rect))) (chks : list (die_input -> list Rect -> bool)) : bool :=
+  match seen with Some s => agree_steps s chks | None => false end.
+
+Lemma agree_steps_forall2 seen chks :
+  agree_steps seen chks = true ->
+  Forall2 (fun (p : die_input * list Rect) (chk : die_input -> list Rect -> bool) => chk (fst p) (snd p) = true) seen chks.
+Proof.
+  revert chks. induction seen as [|[i fx] s IH]; intros chks H; destruct chks as [|c cs]; cbn in H; try discriminate.
+  - constructor.
+  - apply andb_true_iff in H. destruct H as [H1 H2]. constructor; [exact H1 | apply IH; exact H2].
+Qed.
+
+Lemma agree_nsteps_sound d st ops chks :
+  agree_nsteps (nsession (fun i fx => (i, fx)) d st ops) chks = true ->
+  exists seen, nsession (fun i fx => (i, fx)) d st ops = Some seen /\
+    Forall2 (fun (p : die_input * list Rect) (chk : die_input -> list Rect -> bool) => chk (fst p) (snd p) = true) seen chks.
+Proof.
+  unfold agree_nsteps. destruct (nsession _ d st ops) as [seen|]; [|discriminate].
+  intro H. exists seen. split; [reflexivity | apply agree_steps_forall2; exact H].
+Qed.
+
+(* an operation of the history raised in the implementation: the model refuses the history too *)
+Definition ops_refused (st : netlist_state) (ops : list net_op) : bool :=
+  match run_ops ops st with None => true | Some _ => false end.
